@@ -79,6 +79,12 @@ var special = []string{
 	`forbid (principal, action, resource) when { 1 + context.a > 1 };`,
 	`permit (principal == User::"a", action == Action::"a", resource) when { context != {} };`,
 	`permit (principal, action, resource) when { principal has a && principal.a == context.a };`,
+	`permit (principal, action, resource) unless { principal is Group in context.missing };`,
+	`permit (principal, action, resource) unless { action is User in context.a };`,
+	`permit (principal, action, resource) when { !(resource is Doc in principal.missing) };`,
+	`forbid (principal, action, resource) when { context.a is User in context.b };`,
+	`permit (principal, action, resource) when { (context has b && context.b) || principal == User::"a" };`,
+	`permit (principal, action, resource) when { (if context has a then context.a else context).a == 1 };`,
 }
 
 func varsIn(v types.Value, names map[types.String]bool, out map[types.String]bool) {
